@@ -168,6 +168,19 @@ func (r *Run) mustHold(t *Term) bool {
 	return res == Unsat
 }
 
+// mustHoldQuiet is mustHold for optional simplifications: an unknown answer just means "not shown".
+func (r *Run) mustHoldQuiet(t *Term) bool {
+	if t.isCon {
+		return t.bval
+	}
+	res := r.check(r.tc.Not(t))
+	if res == Unknown && r.w.solver.unknown > 0 {
+		r.w.solver.unknown-- // an optional simplification that could not be justified is not a failed obligation
+		r.notes = append(r.notes, "an optional arithmetic simplification could not be justified (solver unknown); generic encoding used")
+	}
+	return res == Unsat
+}
+
 // concretize enumerates the feasible values of an Int term, forking on each.
 func (r *Run) concretize(t *Term) *big.Int {
 	if t.isCon {
